@@ -197,18 +197,27 @@ theorem keep_install (sid : Nat) (s : St) (vs : List Val) (ds : List Int) (r : I
 
 theorem keep_hookDone (sid : Nat) (s : St) (opId : Nat) (on : Bool) : Keep sid s (hookDone s opId on) := by
   unfold hookDone
-  split
-  · apply Keep.thenRet; exact keep_of_fields sid _ _ rfl rfl rfl rfl rfl rfl
-  · exact keep_ret sid _ _ _ _
+  cases on <;> simp only [Bool.false_eq_true, if_false, if_true] <;> split <;>
+    first
+    | (apply Keep.thenRet; exact keep_of_fields sid _ _ rfl rfl rfl rfl rfl rfl)
+    | exact keep_ret sid _ _ _ _
 
 theorem keep_setEnabledThenHook (sid : Nat) (s : St) (opId : Nat) (on : Bool) :
     Keep sid s (setEnabledThenHook s opId on) := by
-  unfold setEnabledThenHook
   have k1 : Keep sid s { s with port := { s.port with enabled := on } } := keep_of_fields sid _ _ rfl rfl rfl rfl rfl rfl
-  dsimp only
-  split
-  · exact k1.trans (keep_hookDone sid _ opId on)
-  · exact k1.trans (keep_addTimer sid _ _ _ _ trivial)
+  have k2 := keep_hookDone sid { s with port := { s.port with enabled := on } } opId on
+  have k3 : ∀ t, Keep sid { s with port := { s.port with enabled := on } }
+      (({ s with port := { s.port with enabled := on } } : St).addTimer t 0 (.hookEnd opId on)) :=
+    fun t => keep_addTimer sid _ t 0 (.hookEnd opId on) trivial
+  cases on
+  · simp only [setEnabledThenHook, Bool.false_eq_true, if_false]
+    split
+    · exact k1.trans k2
+    · exact k1.trans (k3 _)
+  · simp only [setEnabledThenHook, if_true]
+    split
+    · exact k1.trans k2
+    · exact k1.trans (k3 _)
 
 theorem keep_finishOp (sid : Nat) (s : St) (opId : Nat) (op : Op) : Keep sid s (finishOp s opId op) := by
   unfold finishOp
